@@ -15,6 +15,9 @@
 #ifdef VERIF_TYPED_CALLOC
 void *verif_typed_calloc(size_t size);   /* harness: typed zeroed object for this size, or NULL */
 bool verif_typed_release(void *p);       /* harness: true if p came from a typed pool (then it is not passed to free) */
+#    ifdef VERIF_TYPED_ACQUIRE_MANY
+void *verif_typed_acquire(size_t size);  /* harness: typed object with ARBITRARY contents (acquire_many does not zero), or NULL */
+#    endif
 #endif
 static struct aws_allocator s_verif_alloc; /* identity only; vtable unused */
 struct aws_allocator *verif_allocator(void) { return &s_verif_alloc; }
@@ -110,6 +113,17 @@ void *aws_mem_acquire_many(struct aws_allocator *allocator, size_t count, ...) {
     for (size_t i = 0; i < count; ++i) { (void)va_arg(a, void **); size_t s = va_arg(a, size_t); total += VERIF_ALIGN_UP(s); }
     va_end(a);
     void *blk = NULL;
+#ifdef VERIF_TYPED_ACQUIRE_MANY
+    /* every part gets its own statically typed object from the harness (release of the first part releases the group) */
+    for (size_t i = 0; i < count; ++i) {
+        void **o = va_arg(b, void **); size_t s = va_arg(b, size_t);
+        *o = verif_typed_acquire(s);
+        ASSERT(*o != NULL, "typed acquire_many: harness has a typed object for every part (bound of the harness)");
+        if (i == 0) blk = *o;
+    }
+    va_end(b);
+    return blk;
+#endif
     if (total > 0) {
         blk = aws_mem_acquire(allocator, total);
         uint8_t *cur = blk;
